@@ -220,3 +220,20 @@ PROPS["C17"] = dict(
                 "convert_to_u8_data to emit those rows back in code order; create_8 / from_basic / load_plain_font / load_psf1 / load_psf2 / from_bytes to be total and to decode "
                 "the header fields; to_psf2_bytes to write header and glyph block; lemma_raw_roundtrip and lemma_psf2_roundtrip compose the contracts into the bit-exact round trips of C17.",
 )
+
+
+PROPS["C12"] = dict(
+    units=["color_opt"],
+    kani_quick=["std_spec_u8_count_ones"],
+    trusted_base=COMMON_TRUST + [
+        "S9: u8::count_ones facts (0 <= n <= 8, n == 0 <=> b == 0, n == 8 <=> b == 0xFF) - proved by the Kani harness std_spec_u8_count_ones for all 256 values, assumed in the Verus unit",
+        "the renderer's per-pixel rule (glyph bit ? foreground, bright when bold and < 8 : background) is transcribed as spec fn pixel_colour from Buffer::render_to_rgba; the render loops themselves are not under contract",
+    ],
+    unverified_remainder=["BLOCK SLICE: only the body of the innermost cell loop of ColorOptimizer::optimize is verified (as optimize_cell); the three loops, the shape-map lookups (nested HashMap .get().unwrap(), which can panic for a cell whose font page or character has no glyph), layer.set_char and Buffer::flat_clone are dropped or replaced (O1)",
+                          "generate_shape_map (iteration over HashMaps) and Buffer::render_to_rgba are not under contract; 'compositing before optimisation equals compositing after' (flat_clone) is not decided",
+                          "fonts narrower than 8 pixels: Block classification counts all 8 bits of a row"],
+    explanation="get_shape is proved sound: Whitespace => every row of the glyph is 0, Block (8-pixel font, height rows) => every row is 0xFF. The real text of the cell rewrite in "
+                "ColorOptimizer::optimize is proved to keep the attribute flags and font page, to change the character only to ' ' and only for a Whitespace glyph when the font's own ' ' "
+                "glyph is Whitespace (the defect found), and to keep pixel_colour(bit, attribute) for every glyph bit the shape class admits; lemma_cell_picture composes the two into "
+                "'every pixel of the cell keeps its colour'.",
+)
